@@ -40,6 +40,7 @@ def groups(prog):
             'following_direct': later + siblings_after,
             'subtest': ctx_sub, 'in_td': in_td,
             'td_opts': {x[1]: x[2] for x in t if x[0] == 'P'},
+            'teardown_nodes': t,
         }
         yield from rec(s, ctx_sub, in_td, [])
         yield from rec(m, ctx_sub, in_td, [])
@@ -159,6 +160,62 @@ def judge(prog, obs, allow_missing_following=False):
         bad('teardown-before-main-stopped', group=s0, teardown=t)
       if t in last_end:
         td_ends.append(last_end[t])
+    # every teardown node, not only the direct phases: sequences, branches
+    # (evaluated once; children run iff taken), checkpoints (evaluated, not
+    # skipped), nested groups (reached), phases nested in those
+    branches, cps = obs.get('branches'), obs.get('checkpoints')
+
+    def node_ok(n, direct):
+      k = n[0]
+      if k == 'P':
+        if direct or n[2].get('run_if') is not None:
+          return
+        c['teardown_phases_judged'] += 1
+        t = n[1]
+        cnt = starts.get(t, 0)
+        trecs = [recs[i] for i in rec_idx.get(t, [])]
+        if cnt > 1 and cnt == len(trecs) and all(r[2] == 'REPEAT'
+                                                 for r in trecs[:-1]):
+          cnt = 1
+        if cnt != 1:
+          bad('nested-teardown-phase-ran-%s' % (
+              'zero-times' if cnt == 0 else 'more-than-once'), group=s0,
+              teardown=t, count=cnt)
+        elif first_start[t] < main_last:
+          bad('teardown-before-main-stopped', group=s0, teardown=t)
+      elif k == 'S':
+        for ch in n[1]:
+          node_ok(ch, False)
+      elif k == 'B' and branches is not None:
+        c['teardown_branches_judged'] = c.get('teardown_branches_judged', 0) + 1
+        mine = [b for b in branches if b[0] == n[1]]
+        if len(mine) != 1:
+          bad('teardown-branch-evaluated-%d-times' % len(mine), group=s0,
+              branch=n[1])
+        elif mine[0][1]:
+          for ch in n[4]:
+            node_ok(ch, False)
+        else:
+          ran = [p for p in phases_in(n[4]) if starts.get(p)]
+          if ran:
+            bad('branch-not-taken-but-children-ran', group=s0, branch=n[1])
+      elif k == 'C' and cps is not None:
+        c['teardown_checkpoints_judged'] = c.get(
+            'teardown_checkpoints_judged', 0) + 1
+        mine = [x for x in cps if x[0] == n[1]]
+        if len(mine) != 1:
+          bad('teardown-checkpoint-evaluated-%d-times' % len(mine), group=s0,
+              checkpoint=n[1])
+        elif mine[0][1] == 'SKIP':
+          bad('teardown-checkpoint-skipped', group=s0, checkpoint=n[1])
+      elif k == 'G':
+        first_setup = [x[1] for x in n[1] if x[0] == 'P'][:1]
+        if first_setup and first_setup[0] not in rec_idx:
+          bad('teardown-subgroup-not-reached', group=s0, subgroup=first_setup[0])
+
+    if not obs.get('second_abort'):
+      for tn in g['teardown_nodes']:
+        node_ok(tn, True)
     if td_ends:
       td_done = max(td_ends)
       early = [p for p in g['following'] if p in first_start
